@@ -147,8 +147,11 @@ def step (c : Cfg) (s : State) : Ev → Option State
       | .ok => some { s with phase := set s.phase n (.returned true) }
       | .fail => some { s with phase := set s.phase n (.returned false) }
       | .cancelled =>
-        -- the callback reports context.Canceled only under a cancelled context
-        if s.ctx = true then some { s with phase := set s.phase n .aborted } else none
+        -- the callback's error wraps context.Canceled: a cancellation only if the walk context is cancelled,
+        -- otherwise an ordinary failure (since the repair of the walker; before it the node was left without a
+        -- completion in both cases — `Grog.WalkerOld.spuriousCancel…` below)
+        if s.ctx = true then some { s with phase := set s.phase n .aborted }
+        else some { s with phase := set s.phase n (.returned false) }
     else none
   | .complete n =>
     if n ∈ c.sel ∧ s.phase n = .returned true then some (completeOk c s n)
@@ -203,6 +206,18 @@ def measure (c : Cfg) (s : State) : Nat :=
   + (if s.retErr.isSome then 0 else c.sel.length + 1)
   + (if s.ff then 0 else c.sel.length + 1)
   + (if s.ctx then 0 else 1)
+
+/-- every event of the walker itself (everything but an external `ctxCancel`) over the selected nodes -/
+def internalEvents (c : Cfg) : List Ev :=
+  [.walkReturn true, .walkReturn false] ++
+  c.sel.flatMap (fun n => [.wake n, .cbReturn n .ok, .cbReturn n .fail, .cbReturn n .cancelled, .complete n, .exit n, .deliverCancel n])
+
+/-- no event of the walker is enabled (decidable version over `internalEvents`) -/
+def quiescentB (c : Cfg) (s : State) : Bool := (internalEvents c).all (fun e => (step c s e).isNone)
+
+/-- `nodeRoutine` before d5650b9: an error wrapping context.Canceled left the node without a completion whatever the state
+    of the walk context (regression witness only) -/
+def cbReturnCancelledOld (s : State) (n : Node) : State := { s with phase := set s.phase n .aborted }
 
 /-- the `done` branch of `Walk` before 1e66bd4: no error, whatever the context (regression witness only) -/
 def walkReturnDoneOld (c : Cfg) (s : State) : Option State :=
